@@ -57,7 +57,7 @@ format_sh2_default = (mnemo, operands)
 
 SH2_full_formats = {
     "sh2_branch": [mnemo, target],
-    "sh2_jsr_nn": [mnemo, lambda i: [(Token.Memory, "@@(%s)" % i.operands[0].ptr)]],
+    "sh2_jsr_nn": [mnemo, lambda i: [(Token.Memory, "@@%s" % i.operands[0].a.base.a)]],
 }
 
 SH2_full = Formatter(SH2_full_formats)
